@@ -86,7 +86,9 @@ def post_LEVINSON(r, order, allow_singularity, result):
     c.compare('LEVINSON:normal-equations', lhs, rhs, 1e-9, feats,
               scale=r0 * (1.0 + float(np.sum(np.abs(A)))), detail={'order': M, 'cond': cond})
     prod = r0 * float(np.prod(1.0 - np.abs(k) ** 2))
-    c.compare('LEVINSON:P-product-formula', P, prod, 1e-9 * max(1.0, cond ** 0.5), feats,
+    # an identity between two *outputs* (P and k): it holds to rounding whatever the conditioning of r (measured on the
+    # unchanged tree: <= 2e-14 relative over 4000 sequences with P/r0 down to 1e-20)
+    c.compare('LEVINSON:P-product-formula', P, prod, 1e-11, feats,
               scale=max(prod, 1e-300), detail={'order': M, 'cond': cond})
     c.require('LEVINSON:P-positive', bool(np.real(P) > 0), {'P': P}, feats)
     c.require('LEVINSON:reflection-inside-unit-disc', bool(np.all(np.abs(k) < 1.0)),
@@ -400,6 +402,10 @@ def run_case(c, d):
         B = gen.noise(rng, n, cplx)
         try:
             spectrum.CHOLESKY(A, B, d['method'])
+            if d.get('i', 0) % 3 == 0 and isinstance(A, np.ndarray):
+                # the same matrix object, loaded on its diagonal in place, is a new system (judged by the contract)
+                A[np.diag_indices(A.shape[0])] += 1.0 + abs(A[0, 0])
+                spectrum.CHOLESKY(A, B, d['method'])
         except Exception as exc:
             c.exception('CHOLESKY', exc, {'fn': 'CHOLESKY', 'method': d['method']})
 
